@@ -121,12 +121,12 @@ def clutArg : Option Val → R Bytes
   | some (.tok j) => match bytesOfJ j with | some b => .ok b | none => .error .struct
   | some (.intStr _) => .error .struct
 
-/-- whether the five numbers of a bitmap record are inside the domain of the bitmap model (`Bitd.Call` has natural-number
-    width, height, horizontal padding and depth) -/
-def bitdInDomain (width height padW : Int) : Bool := decide (0 ≤ width) && decide (0 ≤ height) && decide (0 ≤ padW)
+/-- whether the numbers of a bitmap record are inside the domain of the bitmap model (`Bitd.Request` has natural-number
+    width, height and depth; both registration offsets are integers) -/
+def bitdInDomain (width height : Int) : Bool := decide (0 ≤ width) && decide (0 ≤ height)
 
 /-- bitd2bmp(castData, clutData, fdata): the reads of `castData` in Python's order, then the decoder for the depth.
-    Outside `bitdInDomain` (a negative width, height or horizontal padding in the member record) the bitmap model has no
+    Outside `bitdInDomain` (a negative width or height in the member record) the bitmap model has no
     counterpart: `Err.notImpl` (the harness does not compare such movies; none is produced by any encoder). -/
 def bitdReal (cd : Dir.CastData) (clut : Option Val) (d : Bytes) : R J := do
   let height ← castInt cd "height"
@@ -137,10 +137,10 @@ def bitdReal (cd : Dir.CastData) (clut : Option Val) (d : Bytes) : R J := do
   let palette ← if depth = 8 then castPaletteTxt cd else pure ""
   -- not a key of DECODERS: "Bad BPP value"
   if depth < 0 ∨ (Bitd.lookupN depth.toNat Gen.BitdTables.decoders).isNone then .error .value else
-  if !bitdInDomain width height padW then .error .notImpl else
+  if !bitdInDomain width height then .error .notImpl else
   let clutB ← clutArg clut
-  let bmp ← Bitd.bitd2bmp { depth := depth.toNat, width := width.toNat, height := height.toNat, padW := padW.toNat, padH := padH,
-                            palette := palette, clut := clutB, fdata := d }
+  let bmp ← Bitd.bitd2bmpI { depth := depth.toNat, width := width.toNat, height := height.toNat, padW := padW, padH := padH,
+                             palette := palette, clut := clutB, fdata := d }
   .ok (bytesJ bmp)
 
 /-- parse_lrcr_file_data(chunk, name_list); generate_lingo_code(lscr); generate_js_code(lscr) — the second generator runs on
